@@ -87,6 +87,9 @@ VTB = TypeVar('VTB', bound=VBase)
 VTC = TypeVar('VTC', int, str)
 VNTInt = NewType('VNTInt', int)
 VNTBase = NewType('VNTBase', VBase)
+VNTIntList = NewType('VNTIntList', list[int])        # supertype not a class
+VNTDerived = NewType('VNTDerived', VNTInt)           # new type derived from a new type
+VNTBool = NewType('VNTBool', bool)                   # supertype not subclassable
 
 
 @runtime_checkable
@@ -180,7 +183,9 @@ CLASSES = {
 }
 LEAF_CLASSES = ['int', 'str', 'bytes', 'float', 'bool', 'complex', 'VBase', 'VDerived', 'VOther']
 TYPEVARS = {'VT': VT, 'VTB': VTB, 'VTC': VTC}
-NEWTYPES = {'VNTInt': (VNTInt, ['cls', 'int']), 'VNTBase': (VNTBase, ['cls', 'VBase'])}
+NEWTYPES = {'VNTInt': (VNTInt, ['cls', 'int']), 'VNTBase': (VNTBase, ['cls', 'VBase']),
+            'VNTIntList': (VNTIntList, ['seq', 'list', ['cls', 'int']]), 'VNTDerived': (VNTDerived, ['nt', 'VNTInt']),
+            'VNTBool': (VNTBool, ['cls', 'bool'])}
 PROTOS = {'VSupportsFoo': VSupportsFoo, 'SupportsInt': typing.SupportsInt}
 # PEP 695 type aliases (what "type ANumber = int | float | complex" creates) -> (alias object, the node it stands for)
 ALIASES = {
@@ -674,7 +679,9 @@ def hashable_node(node):
     k = node[0]
     if k == 'cls':
         return node[1] not in ('list', 'dict', 'set', 'VMyList')
-    if k in ('none', 'any', 'lit', 'type', 'tv', 'nt', 'proto'):
+    if k == 'nt':
+        return hashable_node(NEWTYPES[node[1]][1])
+    if k in ('none', 'any', 'lit', 'type', 'tv', 'proto'):
         return True
     if k == 'alias':
         return hashable_node(ALIASES[node[1]][1])
@@ -714,7 +721,7 @@ def _leaf(hashable):
         st.sampled_from(['Any', 'object']).map(lambda a: ['any', a]),
         st.lists(_lit_vals, min_size=1, max_size=3, unique_by=repr).map(lambda l: ['lit', l]),
         st.sampled_from(sorted(TYPEVARS)).map(lambda t: ['tv', t]),
-        st.sampled_from(sorted(NEWTYPES)).map(lambda t: ['nt', t]),
+        st.sampled_from(sorted(n for n in NEWTYPES if not hashable or n != 'VNTIntList')).map(lambda t: ['nt', t]),
         st.sampled_from(sorted(a for a in ALIASES if not hashable or a != 'AIntList')).map(lambda t: ['alias', t]),
         st.sampled_from(sorted(PROTOS)).map(lambda t: ['proto', t]),
         st.sampled_from([[None, 'bare'], [None, 'TAny'], [['cls', 'int'], 'T'], [['cls', 'int'], 't'],
